@@ -65,11 +65,16 @@ JudgeEntry(c) ==
     \cup (IF Len(rs) = 0 THEN {"C05.EntryRetries"} ELSE {})
     \cup Family(c)
 
-\* C10 on an inverter object whose keep-alive was chosen through set_keep_alive(): steps = [ok, open, tr] after each call
+\* C10 on inverter objects whose keep-alive was chosen through set_keep_alive(): steps = [ok, open, tr, o, ka] after each call
+\* (o = the object that made the call, ka = its setting, open = open transports that were opened during calls of o,
+\* worst = the largest number of transports one object ever had open)
+NextOf(c, k) == LET later == {j \in (k + 1)..Len(c.steps) : c.steps[j].o = c.steps[k].o} IN
+                IF later = {} THEN 0 ELSE CHOOSE j \in later : \A x \in later : j <= x
 JudgeLife(c) ==
     (IF c.worst > 1 THEN {"C10.OneTransport"} ELSE {})
-    \cup (IF ~c.ka /\ \E k \in 1..Len(c.steps) : c.steps[k].open # 0 THEN {"C10.NoLeak"} ELSE {})
-    \cup (IF c.ka /\ \E k \in 1..(Len(c.steps) - 1) : c.steps[k].ok /\ c.steps[k + 1].ok /\ c.steps[k].tr # c.steps[k + 1].tr
+    \cup (IF \E k \in 1..Len(c.steps) : ~c.steps[k].ka /\ c.steps[k].open # 0 THEN {"C10.NoLeak"} ELSE {})
+    \cup (IF \E k \in 1..Len(c.steps) : LET j == NextOf(c, k) IN
+                j # 0 /\ c.steps[k].ka /\ c.steps[k].ok /\ c.steps[j].ok /\ c.steps[k].tr # c.steps[j].tr
           THEN {"C10.Reuse"} ELSE {})
 
 Judge(c) == CASE c.case = "hist" -> JudgeHist(c) [] c.case = "call" -> JudgeCall(c) [] c.case = "entry" -> JudgeEntry(c)
